@@ -111,6 +111,14 @@ P = {
          "DESIGN.md §5 C20"),
 }
 
+# supplementary sanitizer passes appended to the thorough command (DESIGN.md §4b)
+SANITIZE = {
+    "C01": " && tools/sanitize.sh miri C01",
+    "C06": " && tools/sanitize.sh memcheck C06",
+    "C16": " && tools/sanitize.sh memcheck C16",
+    "C17": " && tools/sanitize.sh tsan C17 && tools/sanitize.sh memcheck C17",
+}
+
 NOT_YET = "check not built yet in this round (see DESIGN.md §5c build order)"
 
 def main():
@@ -125,7 +133,7 @@ def main():
         checks.append({
             "property_id": pid,
             "quick_cmd": f"./check {pid} --tier quick",
-            "thorough_cmd": f"./check {pid} --tier thorough",
+            "thorough_cmd": f"./check {pid} --tier thorough" + SANITIZE.get(pid, ""),
             "evidence_file": f"/verif/evidence/{pid}.json",
             "replay_cmd_template": f"./check {pid} --replay {{path}}",
             "engine": engine,
